@@ -162,3 +162,287 @@ def role_c02(r, wit):
         if u.startswith(':') and u.count(':') == 1:
             return 'relative-unit-after-absolute-single-mnemonic-unit'
     return 'within-message'
+
+
+# ----------------------------------------------------------------------------- shared: run or process a byte list
+def execute(w, devname, entry, buf, n=32, script=None, hpend=0, cap=64, **adkw):
+    """returns (dev, output items, extra) for entry 'run' | 'process'"""
+    from ..world import ScriptAdapter
+    if entry == 'run':
+        dev, wr, rem = run_once(w, devname, list(buf), cap=cap, script=script, hpend=hpend)
+        return dev, list(wr.items), {'rem': rem.len}
+    dev = w.new_device(devname)
+    if script:
+        dev.f[0].script.update(script)
+    dev.f[0].hpend = hpend
+    ad = ScriptAdapter(list(buf), **adkw)
+    r = w.process(dev, n, ad)
+    return dev, list(ad.out), {'adapter': ad, 'result': r}
+
+
+def events_of(dev):
+    return list(dev.f[0].events)
+
+
+# ----------------------------------------------------------------------------- C06
+class FaultCheck:
+    """C06: one faulty unit -> exactly one error, no handler for it, units before it normal, units after it all or none,
+    other messages unaffected; through run (one buffer) and through process"""
+    KINDS = ['invalid-byte', 'undefined-mnemonic', 'query-mismatch', 'extra-parameter', 'missing-parameter', 'wrong-kind', 'out-of-range', 'handler-error']
+
+    def __init__(s, world, params):
+        s.w, s.ex = world, world.ex
+        s.dev = 'T1'
+        s.entry = params.get('entry', 'run')
+        s.kinds = params.get('kinds', list(range(len(s.KINDS))))
+        s.chunk = params.get('chunk', 1)
+        s.twin = params.get('twin', False)
+
+    def faulty_unit(s, kind):
+        """(bytes, handler call made by the faulty unit itself or None, script, expected error or None=any)"""
+        ex = s.ex
+        from ..natives import in_range, Or, And, Not, lower
+        k = s.KINDS[kind]
+        if k == 'invalid-byte':
+            b = z3.BitVec('fb', 8)
+            alnum = Or(in_range(b, 48, 57), in_range(b, 65, 90), in_range(b, 97, 122))
+            ws = Or(in_range(b, 0, 9), in_range(b, 11, 32))
+            ex.solver.add(z3.Not(alnum), z3.Not(ws), b != 95, b != 58, b != 59, b != 63, b != 10)
+            return list(b':C') + [b], None, None, None
+        if k == 'undefined-mnemonic':
+            b = z3.BitVec('fl', 8)
+            ex.solver.add(Or(in_range(b, 65, 90), in_range(b, 97, 122)))
+            for c in b'bckqsx':
+                ex.solver.add(lower(b) != c)
+            return list(b':A:') + [b], None, None, None
+        if k == 'query-mismatch':
+            v = ex.decide([(0, True), (1, True)])
+            return list([b':A:B?', b':A:Q'][v]), None, None, None
+        if k == 'extra-parameter':
+            v = ex.decide([(0, True), (1, True)])
+            return list([b':X 1', b':U? 1,2'][v]), None, None, None
+        if k == 'missing-parameter':
+            return list(b':U?'), None, None, None
+        if k == 'wrong-kind':
+            v = ex.decide([(0, True), (1, True), (2, True)])
+            return list([b':U? "x"', b':S 5', b':K 5'][v]), None, None, None
+        if k == 'out-of-range':
+            d = [z3.BitVec(f'fd{i}', 8) for i in range(3)]
+            for x in d:
+                ex.solver.add(in_range(x, 48, 57))
+            val = sum((z3.ZeroExt(8, x) - 48) * m for x, m in zip(d, (100, 10, 1)))
+            ex.solver.add(z3.UGT(val, 255))
+            return list(b':U? ') + d, None, None, None
+        if k == 'handler-error':
+            n = z3.BitVec('fn', 16)
+            return list(b':A:B'), 0, ('custom', n, list(b'bad')), ('Custom', n, b'bad')
+        raise Unsupported(k)
+
+    def body(s):
+        ex, w = s.ex, s.w
+        kind = s.kinds[ex.decide([(i, True) for i in range(len(s.kinds))])] if len(s.kinds) > 1 else s.kinds[0]
+        shape = ex.decide([(i, True) for i in range(4)])       # [F], [v;F], [F;v], [v;F;v]
+        pre = ex.decide([(i, True) for i in range(2)])         # preceding message or not
+        fbytes, fcall, fscript, ferr = s.faulty_unit(kind)
+        before = [(list(b':A:C'), 1)] if shape in (1, 3) else []
+        after = [(list(b'*R'), 5)] if shape in (2, 3) else []
+        msg = []
+        for u, _ in before:
+            msg += u + [ord(';')]
+        msg += fbytes
+        for u, _ in after:
+            msg += [ord(';')] + u
+        msg.append(10)
+        stream = (list(b':X\n') if pre else []) + msg + list(b':C;:A:Q?\n')
+        s.stream = stream
+        # which handler invocation (0-based count) is the faulty unit's own, for the script
+        script = None
+        if fscript is not None:
+            idx = (1 if pre else 0) + len(before)
+            script = {idx: fscript}
+        if s.entry == 'run':
+            dev, out, extra = execute(w, s.dev, 'run', stream, script=script)
+        else:
+            dev, out, extra = execute(w, s.dev, 'process', stream, n=32, script=script, tail=s.chunk)
+        ev = events_of(dev)
+        # admissible event sequences
+        head = ([('call', 3)] if pre else []) + [('call', c) for _, c in before]
+        if fcall is not None:
+            head.append(('call', fcall))
+        head.append(('err', ferr))
+        tail = [('call', 2), ('call', 4)]
+        adm = [head + tail, head + [('call', c) for _, c in after] + tail]
+        if s.twin:
+            adm = [head + [('err', None)] + tail]     # wrong oracle: demands two error reports
+        got = []
+        for e in ev:
+            if e[0] == 'call':
+                got.append(('call', e[1]))
+            else:
+                got.append(('err', e[1]))
+        viol = None
+
+        def match(seq):
+            if len(seq) != len(got):
+                return False
+            for a, b in zip(seq, got):
+                if a[0] != b[0]:
+                    return False
+                if a[0] == 'call' and a[1] != b[1]:
+                    return False
+                if a[0] == 'err' and a[1] is not None:
+                    e = b[1]
+                    if e.variant != a[1][0]:
+                        return False
+                    if a[1][0] == 'Custom':
+                        n = e.f[0]
+                        same = (n.get_id() == a[1][1].get_id()) if is_sym(n) else False
+                        if not same or bytes(as_slice(e.f[1]).items()) != a[1][2]:
+                            return False
+            return True
+        if not any(match(a) for a in adm):
+            viol = f'{s.KINDS[kind]} fault: events {[(g[0], g[1] if g[0] == "call" else getattr(g[1], "variant", g[1])) for g in got]} are none of the admissible sequences ' \
+                   f'{[[(a[0], a[1] if a[0] == "call" else "error") for a in seq] for seq in adm]}'
+        elif out != list(b'7\n'):
+            viol = f'{s.KINDS[kind]} fault: output {out} instead of the single response "7\\n" of the last message'
+        return {'viol': viol, 'kind': s.KINDS[kind], 'adm': adm, 'pre': pre, 'shape': shape, 'script': script}
+
+    def on_leaf(s, out):
+        ex = s.ex
+        rec = {'kind': out[0]}
+        viol = None
+        if out[0] == 'ok':
+            rec['fault'] = out[1]['kind']
+            viol = out[1]['viol']
+            rule = 'FAULT'
+        else:
+            viol = out[1]
+            rule = out[0].upper()
+        if viol:
+            m = ex.path_model()
+            wit = model_bytes(m, s.stream)
+            script = None
+            r = out[1] if out[0] == 'ok' else {}
+            if r.get('script'):
+                k, sc = list(r['script'].items())[0]
+                n = m.eval(sc[1], model_completion=True).as_signed_long()
+                script = {str(k): ['custom', n, bytes(sc[2]).hex()]}
+            adm = None
+            if out[0] == 'ok':
+                adm = [[[a[0], a[1] if a[0] == 'call' else ('any' if a[1] is None else 'custom')] for a in seq] for seq in r['adm']]
+            rec['violations'] = [{'rule': rule, 'what': f'{viol}; stream {bytes_repr(wit)} via {s.entry}', 'input': wit.hex(), 'device': s.dev, 'entry': s.entry,
+                                  'script': script, 'admissible': adm, 'chunk': s.chunk, 'role': f'{rule}:{r.get("kind", "")}:{s.entry}'}]
+        if hash(tuple(map(str, ex.decisions))) % 7 == 0:
+            rec['sample'] = {'stream': bytes_repr(model_bytes(ex.path_model(), s.stream)), 'entry': s.entry}
+        return rec
+
+
+# ----------------------------------------------------------------------------- C08
+class PayloadCheck:
+    """C08: string and block payloads are delivered verbatim, through run and through process in any chunking"""
+
+    def __init__(s, world, params):
+        s.w, s.ex = world, world.ex
+        s.dev = 'T1'
+        s.entry = params.get('entry', 'run')
+        s.maxlen = params.get('maxlen', 3)
+        s.utf8 = params.get('utf8', False)
+        s.slack = params.get('slack', 0)
+        s.twin = params.get('twin', False)
+
+    def body(s):
+        ex, w = s.ex, s.w
+        from ..natives import in_range
+        prefix = ex.decide([(i, True) for i in range(2)])
+        form = ex.decide([(i, True) for i in range(3)])          # 0: #block, 1: "string", 2: 'string'
+        suffix = ex.decide([(i, True) for i in range(2)])
+        ln = ex.decide([(i, True) for i in range(0, s.maxlen + 1)])
+        pay = [z3.BitVec(f'p{i}', 8) for i in range(ln)]
+        if form == 0:
+            lit = list(b'#1') + [48 + ln] + pay
+            hdr = b'K'
+        else:
+            q = 34 if form == 1 else 39
+            for i, b in enumerate(pay):
+                ex.solver.add(b != q)
+                if not (s.utf8 and i < 2):
+                    ex.solver.add(z3.ULT(b, 128))
+            if s.utf8 and ln >= 2:
+                # first two bytes: either ASCII or one 2-byte sequence
+                a, c = pay[0], pay[1]
+                ex.solver.add(z3.Or(z3.And(z3.ULT(a, 128), z3.ULT(c, 128)), z3.And(in_range(a, 0xC2, 0xDF), in_range(c, 0x80, 0xBF))))
+            elif s.utf8 and ln == 1:
+                ex.solver.add(z3.ULT(pay[0], 128))
+            lit = [q] + pay + [q]
+            hdr = b'S'
+        msg = (list(b'A:B;') if prefix else []) + list(hdr) + [32] + lit + (list(b';C') if suffix else []) + [10]
+        s.msg = msg
+        hid = {(0, b'K'): 7, (1, b'K'): 8, (0, b'S'): 9, (1, b'S'): 10}[(prefix, hdr)]
+        exp = ([('call', 0, ())] if prefix else []) + [('call', hid, (('slice', tuple(pay)),))] + ([('call', 1 if prefix else 2, ())] if suffix else [])
+        if s.twin:
+            exp = exp[:-1] if len(exp) > 1 else exp + [('call', 2, ())]
+        if s.entry == 'run':
+            dev, out, extra = execute(w, s.dev, 'run', msg)
+            s.chunks = None
+            s.n = None
+        else:
+            n = len(msg) + s.slack
+            if n > 16:
+                n = 24 if n <= 24 else 32
+            s.n = n
+            # every position of a single cut, plus byte-at-a-time and all-at-once
+            sched = ex.decide([(i, True) for i in range(0, len(msg) + 1)])
+            chunks = [] if sched == 0 else ([len(msg)] if sched == len(msg) else [sched, len(msg) - sched])
+            s.chunks = chunks
+            dev, out, extra = execute(w, s.dev, 'process', msg, n=n, chunks=chunks, tail=1)
+        got = observation_events(dev)
+        viol = None
+        from .process_level import sym_equal
+        eq, m = sym_equal(ex, tuple(got), tuple(exp))
+        if not eq:
+            viol = (f'handlers/arguments/errors {short(got)} differ from the expected {short(exp)}', m)
+        elif out:
+            viol = (f'unexpected output {out}', None)
+        return {'viol': viol, 'form': form, 'ln': ln}
+
+    def on_leaf(s, out):
+        ex = s.ex
+        rec = {'kind': out[0]}
+        if out[0] == 'ok':
+            v = out[1]['viol']
+            rec['form'] = out[1]['form']
+            rule = 'PAYLOAD'
+        else:
+            v = (out[1], None)
+            rule = out[0].upper()
+        if v:
+            m = v[1] if v[1] is not None else ex.path_model()
+            wit = model_bytes(m, s.msg)
+            has_nl = b'\n' in wit[:-1]
+            rec['violations'] = [{'rule': rule, 'what': f'{v[0]}; message {bytes_repr(wit)} via {s.entry}' + (f' N={s.n} chunks={s.chunks}' if s.entry == 'process' else ''),
+                                  'input': wit.hex(), 'device': s.dev, 'entry': s.entry, 'n': s.n, 'chunks': s.chunks,
+                                  'role': f'{rule}:{s.entry}:' + ('newline-in-payload' if has_nl else 'no-newline') + (':after-relative-unit' if wit.startswith(b'A:B;') else '')}]
+        if hash(tuple(map(str, ex.decisions))) % 31 == 0:
+            rec['sample'] = {'message': bytes_repr(model_bytes(ex.path_model(), s.msg)), 'entry': s.entry, 'chunks': s.chunks}
+        return rec
+
+
+def observation_events(dev):
+    from .process_level import flat
+    ev = []
+    for e in dev.f[0].events:
+        if e[0] == 'call':
+            ev.append(('call', e[1], tuple(flat(a) for a in e[2])))
+        else:
+            ev.append(('err', flat(e[1])))
+    return ev
+
+
+def short(ev):
+    out = []
+    for e in ev:
+        if e[0] == 'call':
+            out.append(f'h{e[1]}' + (f'({len(e[2][0][1])} bytes)' if e[2] else ''))
+        else:
+            out.append('error ' + str(e[1][1]))
+    return out
